@@ -139,6 +139,24 @@ def r04_2(prog, out):
             if n in ("checked_sub", "saturating_sub", "sub", "duration_since", "checked_add", "add", "elapsed"):
                 ops.append(n)
     key = "rounding:%s" % prog.short(ctor)
+    floats = []
+    for blk in bi.body.blocks:
+        if blk.cleanup:
+            continue
+        for s in blk.stmts:
+            if s.k == "assign" and s.rv.k == "cast" and s.rv.j["ck"] in ("FloatToInt", "IntToFloat", "FloatToFloat"):
+                floats.append("%s cast" % s.rv.j["ck"])
+        t = blk.term
+        if t.k == "call" and t.callee is not None and any(x in t.callee.path for x in ("as_secs_f32", "from_secs_f32", "mul_f32", "div_f32")):
+            floats.append(t.callee.path.split("::")[-1])
+    f32 = any("f32" in bi.body.local_ty(i) for i in range(len(bi.body.locals)))
+    if floats and f32:
+        out.violation(key, prog.loc(ctor), "the deadline is rounded through f32 arithmetic (%s): a 24-bit mantissa cannot hold tenths of a second beyond ~19 days of "
+                      "uptime, so the stored deadline can land before the requested instant" % sorted(set(floats)))
+        return
+    if floats:
+        out.undecided(key, prog.loc(ctor), "the deadline is rounded through floating point (%s): monotonicity not established" % sorted(set(floats)))
+        return
     down = [o for o in ops if o in ("Sub", "SubWithOverflow", "checked_sub", "saturating_sub", "sub")]
     unknown = [o for o in ops if o in ("Div", "Mul", "MulWithOverflow", "Shr", "BitAnd")]
     if down:
